@@ -14,6 +14,7 @@ def client_mir(name, actions):
        ('forget_slot', j)            release(j) without dealloc (a detached handle / hand-over to another thread)
        ('check_slot', j)             check(m_j)
        ('free_given', ko, ks, j)     release(j); dealloc(_ko, _ks)  - a range the thread holds from the start (slot j, j < number of given slots)
+       ('touch_given', ko, ks)       write the pattern into the given range [_ko, _ko+_ks)
        ('discard',)                  discard_freelist_in()
     Arguments: _1 = &Arena, _2.._5 = u32 parameters, _6 = u8 pattern. Slots: given ranges first, then allocations in order."""
     L = []
@@ -86,6 +87,11 @@ def client_mir(name, actions):
             b = len(bbs)
             close("_%d = client::release(const %d_u8) -> [return: bb%d, unwind continue];" % (u2, a[3], b + 1))
             close("_%d = <sync::Arena as allocator::Allocator>::dealloc(copy _1, copy _%d, copy _%d) -> [return: bb%d, unwind continue];" % (u3, a[1], a[2], b + 2))
+        elif a[0] == "touch_given":
+            # the holder of a given range writes into it (so that it is the range's last writer before releasing it)
+            u1 = newl()
+            b = len(bbs)
+            close("_%d = client::fill_range(copy _%d, copy _%d, copy _6) -> [return: bb%d, unwind continue];" % (u1, a[1], a[2], b + 1))
         elif a[0] == "discard":
             u1 = newl()
             b = len(bbs)
